@@ -191,6 +191,42 @@ Proof.
            (c_good F Conn K) (c_at F Conn K dflt) (c_upd_good F Conn K) (c_upd_at F Conn K dflt)).
 Qed.
 
+(** End to end with C14's colliders: after any history ending with update_collider_poses,
+    aabb_overlapping_colliders returns exactly the registered colliders outside the whitelist
+    for which a NEW collider of the same shape built at the transform manager's CURRENT
+    transform of the frame has an aabb overlapping the query box. *)
+Theorem bvh_box_query_exact_after_history :
+  forall F Conn (K : kern F Conn) (dflt : F) (le : F -> F -> bool) cmin cmax czero go_left cost_ok,
+    (forall a b c, le a b = true -> le b c = true -> le a c = true) ->
+    (forall a b, le (cmin a b) a = true) -> (forall a b, le (cmin a b) b = true) ->
+    (forall a b, le a (cmax a b) = true) -> (forall a b, le b (cmax a b) = true) ->
+    forall frame feqb (feqb_spec : forall a b : frame, feqb a b = true <-> a = b) st0 h st q wl,
+    NoDup (map fst (colliders _ _ _ _ st0)) -> Forall (c_good F Conn K) (heap _ _ _ _ st0) ->
+    run_ops F cmin cmax czero go_left cost_ok frame feqb (Colliders.coll F Conn) (Pose F)
+            (c_upd F Conn K) (c_aabb F Conn K dflt) st0 (h ++ [UpdatePoses frame (Pose F)]) = XOk st ->
+    NoDup (map snd (colliders _ _ _ _ st)) ->
+    exists r, aabb_overlapping_colliders F le frame feqb (Colliders.coll F Conn) (Pose F) st q wl = XOk r /\
+      NoDup (map fst r) /\
+      forall f o, In (f, o) r <->
+        In (f, o) (colliders _ _ _ _ st) /\ ~ In f wl /\
+        exists c s p, nth_error (heap _ _ _ _ st) o = Some c /\ tmap _ _ _ _ st f = Some p /\
+                      sim F Conn c (construct F Conn K s p) /\
+                      overlap F le (c_aabb F Conn K dflt (construct F Conn K s p)) q = true.
+Proof.
+  intros F Conn K dflt le cmin cmax czero go_left cost_ok H1 H2 H3 H4 H5 frame feqb feqb_spec.
+  exact (history_box_query_exact F Conn K dflt le cmin cmax czero go_left cost_ok H1 H2 H3 H4 H5
+           frame feqb feqb_spec).
+Qed.
+
+(** fill_tree_with_colliders is the history add_collider* ; whitelists.update ; update_collider_poses,
+    so every statement about histories covers it. *)
+Theorem fill_tree_is_a_history :
+  forall C cmin cmax czero go_left cost_ok frame feqb coll pose upd aabb_of objs w st,
+    fill_tree_with_colliders C cmin cmax czero go_left cost_ok frame feqb coll pose upd aabb_of st objs w =
+    run_ops C cmin cmax czero go_left cost_ok frame feqb coll pose upd aabb_of st
+            (map (fun fo => Add frame pose (fst fo) (snd fo)) objs ++ [SetWl frame pose w; UpdatePoses frame pose]).
+Proof. exact fill_as_ops. Qed.
+
 (** The generated whitelists (LinkInfo): a collision frame whitelists the collision frames
     of its own link, of the link recorded last as its parent and of the link recorded last
     as its child — only ONE child link, hence the asymmetry for branching robots. *)
@@ -292,6 +328,8 @@ Print Assumptions detect_spec.
 Print Assumptions detect_spec_symmetric.
 Print Assumptions detect_any_spec.
 Print Assumptions poses_current_colliders.
+Print Assumptions bvh_box_query_exact_after_history.
+Print Assumptions fill_tree_is_a_history.
 Print Assumptions generated_whitelist_spec.
 Print Assumptions generated_whitelists_lookup.
 Print Assumptions generated_whitelists_can_be_asymmetric.
